@@ -49,6 +49,8 @@ func init() {
 			{ID: "R05v", Floor: 1, Doc: "a resumed session finalizes under the roots it was given: Resume's header comparison demands equal root counts (= R12s)", Run: ruleR12s},
 			{ID: "R05w", Floor: 1, Doc: "no identity-CID section is written with StoreIdentityCIDs off: identity is decided by the multihash code alone (= R04w)", Run: ruleR04w},
 			{ID: "R05x", Floor: 1, Doc: "the roots handed to a writer constructor are a list: a root list built locally starts from make or a literal, never from the nil slice (which the header encoder writes as CBOR null)", Run: ruleR05x},
+			{ID: "R05y", Floor: 3 + 4 + 1 + 1, Doc: "what the library finalized is accepted by the library's verifying readers: the hash gate compares under the CID's own prefix, digest length included (= R02a)", Run: ruleR02a},
+			{ID: "R05z", Floor: 1, Doc: "a full inspection re-hashes to the digest length the CID carries (= R02h)", Run: ruleR02h},
 		},
 	})
 }
@@ -312,6 +314,28 @@ func ruleR05a(c *Ctx, r *Report) {
 				return
 			}
 			f := calleeFunc(ci.Common())
+			if f != nil && f.Name() == "AppendUint64" {
+				// buf = AppendUint64(buf, v): v lands at len(buf) — in a straight chain from an empty
+				// buffer, or in a loop over a literal list of the fields
+				args := ci.Call.Args
+				bufArg, val := args[len(args)-2], canon(args[len(args)-1])
+				if base, isLoop := appendLoopBase(ci, bufArg); isLoop {
+					if off0, ok := appendedLen(base, 0); ok {
+						for k, el := range literalElemsOfRange(val) {
+							if fv, _ := fieldOfLoad(canon(el)); fv != nil {
+								wm[fv.Name()] = off0 + 8*int64(k)
+							}
+						}
+					}
+					return
+				}
+				if off, ok := appendedLen(bufArg, 0); ok {
+					if fv, _ := fieldOfLoad(val); fv != nil {
+						wm[fv.Name()] = off
+					}
+				}
+				return
+			}
 			if f == nil || f.Name() != "PutUint64" {
 				return
 			}
@@ -850,4 +874,115 @@ func ruleR05l(c *Ctx, r *Report) {
 		}
 		r.Check(bad == "", key, c.Pos(fn.Pos()), "past the CARv1 test, success is only the result of store.Finalize", bad)
 	}
+}
+
+// appendedLen: the length of a buffer built by a chain of binary.*.AppendUint64 calls from an empty
+// slice (make([]byte, 0, n), nil, []byte{}).
+func appendedLen(v ssa.Value, depth int) (int64, bool) {
+	if depth > 16 {
+		return 0, false
+	}
+	switch x := canon(v).(type) {
+	case *ssa.MakeSlice:
+		if k, ok := constInt(x.Len); ok {
+			return k, true
+		}
+	case *ssa.Const:
+		if x.IsNil() {
+			return 0, true
+		}
+	case *ssa.Slice:
+		if al, ok := x.X.(*ssa.Alloc); ok {
+			if arr, ok := derefType(al.Type()).Underlying().(*types.Array); ok {
+				lo, hi := int64(0), arr.Len()
+				if x.Low != nil {
+					k, ok := constInt(x.Low)
+					if !ok {
+						return 0, false
+					}
+					lo = k
+				}
+				if x.High != nil {
+					k, ok := constInt(x.High)
+					if !ok {
+						return 0, false
+					}
+					hi = k
+				}
+				return hi - lo, true
+			}
+		}
+	case *ssa.Call:
+		if f := calleeFunc(x.Common()); f != nil && f.Pkg() != nil && f.Pkg().Path() == "encoding/binary" {
+			w := map[string]int64{"AppendUint64": 8, "AppendUint32": 4, "AppendUint16": 2}[f.Name()]
+			args := x.Call.Args
+			if w > 0 {
+				if n, ok := appendedLen(args[len(args)-2], depth+1); ok {
+					return n + w, true
+				}
+			}
+		}
+	}
+	return 0, false
+}
+
+// appendLoopBase: the buffer argument of the append call is the loop-carried value
+// `phi [before the loop: base, back edge: this call]`; it returns base.
+func appendLoopBase(call *ssa.Call, buf ssa.Value) (ssa.Value, bool) {
+	ph, ok := buf.(*ssa.Phi)
+	if !ok || len(ph.Edges) != 2 {
+		return nil, false
+	}
+	switch {
+	case ph.Edges[1] == ssa.Value(call):
+		return ph.Edges[0], true
+	case ph.Edges[0] == ssa.Value(call):
+		return ph.Edges[1], true
+	}
+	return nil, false
+}
+
+// literalElemsOfRange: v is the element `lit[i]` of a range over a literal list; the values the
+// literal holds, by index.
+func literalElemsOfRange(v ssa.Value) []ssa.Value {
+	u, ok := v.(*ssa.UnOp)
+	if !ok || u.Op != token.MUL {
+		return nil
+	}
+	ia, ok := u.X.(*ssa.IndexAddr)
+	if !ok {
+		return nil
+	}
+	base := canon(ia.X)
+	if sl, ok := base.(*ssa.Slice); ok {
+		base = sl.X
+	}
+	al, ok := base.(*ssa.Alloc)
+	if !ok {
+		return nil
+	}
+	arr, ok := derefType(al.Type()).Underlying().(*types.Array)
+	if !ok {
+		return nil
+	}
+	out := make([]ssa.Value, arr.Len())
+	for _, rf := range *al.Referrers() {
+		ea, ok := rf.(*ssa.IndexAddr)
+		if !ok {
+			continue
+		}
+		k, isK := constInt(ea.Index)
+		if !isK || k < 0 || k >= arr.Len() {
+			continue
+		}
+		for _, st := range storesTo(ea) {
+			out[k] = st.Val
+		}
+	}
+	for _, e := range out {
+		if e == nil {
+			return nil
+		}
+	}
+	return out
 }
